@@ -91,6 +91,8 @@ func deliverToSubscription(
 					s.Where(sql.And(
 						// not necessary? maybe helps with indexes?
 						sql.EQ(t.C(message.TopicColumn), m.TopicID),
+						// only a delivery of the same ordering key is a predecessor
+						sql.EQ(t.C(message.FieldOrderKey), *m.OrderKey),
 					))
 				},
 			).
